@@ -124,6 +124,43 @@ func probeHist(h histArg) (string, string) {
 	return "", ""
 }
 
+// every ordered pair of consecutive probes on one filter object (a filter must not remember earlier probes)
+type seqArg struct {
+	From, To *ymd
+	Probes   []ymd `json:"probes"`
+}
+
+func probeSeq(a seqArg) (string, string) {
+	var fp, tp *date.Date
+	if a.From != nil {
+		v := a.From.date()
+		fp = &v
+	}
+	if a.To != nil {
+		v := a.To.date()
+		tp = &v
+	}
+	f, err := date.FilterFromTo(fp, tp)
+	if err != nil || f == nil {
+		return "valid_bounds_refused", fmt.Sprintf("FilterFromTo(%v,%v) = %v, %v", a.From, a.To, f, err)
+	}
+	ds := make([]date.Date, len(a.Probes))
+	want := make([]bool, len(a.Probes))
+	for i, p := range a.Probes {
+		ds[i] = p.date()
+		want[i] = (a.From == nil || p.ord() >= a.From.ord()) && (a.To == nil || p.ord() <= a.To.ord())
+	}
+	for i := range ds {
+		for j := range ds {
+			f.Contains(ds[i])
+			if got := f.Contains(ds[j]); got != want[j] {
+				return "contains_after_previous_probe", fmt.Sprintf("filter(%v..%v): Contains(%v) directly after Contains(%v) = %v want %v", a.From, a.To, a.Probes[j], a.Probes[i], got, want[j])
+			}
+		}
+	}
+	return "", ""
+}
+
 func main() {
 	mc.Main("C15", "all (from, to) pairs over a date window x 4 nil/non-nil shapes, each probed with every date of the window, against day ordinals; "+
 		"non-trivial = both bounds given and they differ in month or year", func(r *mc.Run) {
@@ -147,7 +184,28 @@ func main() {
 			}
 			win = append(win, ymd{y, 6, 15}, ymd{y, 5, 16}, ymd{y, 7, 14})
 		}
+		for _, y := range []int64{10000, 12345, 999999999, -999999999, 1500000000, -1500000000, 2147483646, -2147483646} {
+			win = append(win, ymd{y, 1, 1}, ymd{y, 6, 15}, ymd{y, 12, 31})
+		}
 		n := int64(len(win))
+		pseq := mc.NewProbe(r, "probe_sequence", nil, probeSeq)
+		r.Phase("serial: every ordered pair of consecutive Contains calls on one filter object, probes = all days of 2021-2022, for 6 filters of every shape", "complete for depth 2 over the two years", func() {
+			var two []ymd
+			for y := int64(2021); y <= 2022; y++ {
+				for m := 1; m <= 12; m++ {
+					for d := 1; d <= oracle.DaysIn(y, m); d++ {
+						two = append(two, ymd{y, m, d})
+					}
+				}
+			}
+			fs := [][2]*ymd{{&ymd{2021, 8, 18}, &ymd{2022, 8, 10}}, {&ymd{2022, 1, 1}, &ymd{2022, 1, 1}}, {&ymd{2021, 12, 31}, nil}, {nil, &ymd{2022, 2, 28}}, {nil, nil}, {&ymd{2021, 1, 31}, &ymd{2021, 3, 1}}}
+			r.Serial(func(w *mc.W) {
+				for _, f := range fs {
+					w.Points(int64(len(two) * len(two)))
+					pseq.Do(w, seqArg{f[0], f[1], two})
+				}
+			})
+		})
 		phist := mc.NewProbe(r, "history2", nil, probeHist)
 		r.Phase("serial: all histories of two filter constructions over 6 bounds (incl. nil) - both filters are probed afterwards", "complete for depth 2 over the listed bounds", func() {
 			bs := []*ymd{nil, {2024, 2, 28}, {2024, 2, 29}, {2024, 3, 1}, {2023, 12, 31}, {1, 1, 1}}
